@@ -92,9 +92,20 @@ func TestC18Exhaustive(t *testing.T) {
 			exhaustiveBytes(one, h.Thorough())
 		}
 	}
+	// the zero-size element type has one value: universe {0}
+	kind = kindUnit
+	exhaustiveOne(one, setValues(1), argLists(1, maxArgs+1), maxInter+1)
+	exhaustiveLongIntersect(one, setValues(1), maxInter+2, longInter, true)
+	// directed sweep: near-equal operands of every size, every call repeated
+	nNear := 0
+	sweepNear(h.Thorough(), func(k string, c Case) {
+		kind = k
+		one(c)
+		nNear++
+	})
 	if !h.Failed() {
 		h.Exhaustive()
-		h.Note("universe {0..%d}: %d set values (nil + %d subsets), item lists up to length %d (%d lists), Intersect argument lists up to length %d, and of %d..%d operands that are all the same value but one (every pair of values, the odd one at every position for Set[int], first and last for the other kinds); all of it for Set[int] and for each of the element kinds %v; for u8 and i8 also the operand pairs built from runs of 0, 1, 127..129, 255 and 256 consecutive values and their complements in the whole type", u-1, len(vals), len(vals)-1, maxArgs, len(lists), maxInter, maxInter+1, longInter, elemKinds)
+		h.Note("universe {0..%d}: %d set values (nil + %d subsets), item lists up to length %d (%d lists), Intersect argument lists up to length %d, and of %d..%d operands that are all the same value but one (every pair of values, the odd one at every position for Set[int], first and last for the other kinds); all of it for Set[int] and for each of the element kinds %v; for u8 and i8 also the operand pairs built from runs of 0, 1, 127..129, 255 and 256 consecutive values and their complements in the whole type; for Set[struct{}] (one value) the universe {0} with item lists up to length %d; NOT exhaustive, a directed sweep of %d multi-operation cases: for every size n in 0..%d and %v, a set A of n members and B = A / A with one member swapped for a fresh one / A less one / A plus one / n fresh members / n members of which one is shared, and Equals, IsSubset, Intersects, HasAll, HasAny (items = members of the other set), Intersect, Add, AddAll, Remove, RemoveAll on (A,B) and (B,A), each evaluated %d times per pair for n <= %d (fewer for the larger sizes) because map iteration order differs from call to call", u-1, len(vals), len(vals)-1, maxArgs, len(lists), maxInter, maxInter+1, longInter, elemKinds, maxArgs+1, nNear, nearSmall, nearLarge, nearReps(h.Thorough(), 1)+1, nearSmall)
 	}
 }
 
@@ -245,6 +256,118 @@ func exhaustiveBytes(one func(Case), thorough bool) {
 }
 
 // ---------------------------------------------------------------------------
+// near-equal operands
+
+// nearSmall: every size up to this one is swept; nearLarge are the other sizes.
+const nearSmall = 70
+
+var nearLarge = []int{127, 128, 129, 255, 256, 257, 1000}
+
+// kindCap is the largest set of the kind that leaves room for one fresh value
+// (u8/i8: that holds every value of the type).
+func kindCap(kind string) int {
+	switch {
+	case kind == "":
+		return 4000
+	case kind == kindUnit:
+		return 1
+	case isByteKind(kind):
+		return 256
+	}
+	return domHi - domLo - 2 // one value is the probe element
+}
+
+// nearBase lists n distinct model values of the kind, consecutive from off
+// (wrapping around in the kind's domain, leaving out the probe element).
+func nearBase(kind string, n, off int) []int {
+	lo, hi := domLo, domHi
+	switch {
+	case kind == "":
+		hi = 1 << 13
+	case kind == kindUnit:
+		lo, hi = 0, 1
+	case isByteKind(kind):
+		lo, hi = 0, 256
+	}
+	w := hi - lo
+	out := make([]int, 0, n)
+	for i := 0; i < w && len(out) < n; i++ {
+		x := lo + ((off-lo)%w+w+i)%w
+		if x == probe && !isByteKind(kind) && kind != kindUnit {
+			continue
+		}
+		out = append(out, x)
+	}
+	return out
+}
+
+// nearReps is the number of extra evaluations of a predicate on operands of n
+// members.
+func nearReps(thorough bool, n int) int {
+	r := 31
+	switch {
+	case n > 257:
+		r = 3
+	case n > 129:
+		r = 7
+	case n > nearSmall:
+		r = 15
+	}
+	if thorough {
+		r = r*8 + 7
+	}
+	return r
+}
+
+// nearBattery is the history for one pair: var1 becomes the near copy (mode,
+// pick, start: see the near operation) of var0, then every binary operation is
+// applied to (var0, var1) and to (var1, var0), the predicates rep+1 times, the
+// others rep/4+1 times; the mutators work on var2, a copy of the receiver.
+func nearBattery(mode, pick, start, rot, rep int) []Op {
+	ops := []Op{{K: "near", D: 1, S: []int{0}, B: mode, A: []int{pick, start}}}
+	rm := rep / 4
+	for _, o := range [][2]int{{0, 1}, {1, 0}} {
+		a, b := o[0], o[1]
+		for _, k := range []string{"equals", "issubset", "intersects"} {
+			ops = append(ops, Op{K: k, D: a, S: []int{b}, R: rep})
+		}
+		ops = append(ops,
+			Op{K: "hasall", D: a, S: []int{b}, B: rot, R: rep},
+			Op{K: "hasany", D: a, S: []int{b}, B: rot, R: rep},
+			Op{K: "intersect", D: 3, S: []int{a, b}, R: rm})
+		for _, k := range []string{"removeall", "remove", "addall", "add"} {
+			ops = append(ops, Op{K: "near", D: 2, S: []int{a}}, Op{K: k, D: 2, S: []int{b}, B: rot, R: rm})
+		}
+	}
+	return append(ops, Op{K: "intersect", D: 3, S: []int{0, 1, 0}, R: rm}, Op{K: "new", D: 3, S: []int{1}, B: rot})
+}
+
+// sweepNear emits the directed cases: every size 0..nearSmall and the sizes of
+// nearLarge, every mode of the near operation, Set[int] and two more element
+// kinds per size in turn (thorough: every kind that can hold the size).
+func sweepNear(thorough bool, emit func(kind string, c Case)) {
+	sizes := append(seq(nearSmall+1), nearLarge...)
+	for _, n := range sizes {
+		kinds := []string{""}
+		for i, k := range elemKinds {
+			if n <= kindCap(k) && (thorough || (n+i)%4 == 0 || (n > nearSmall && isByteKind(k))) {
+				kinds = append(kinds, k)
+			}
+		}
+		if n <= 1 {
+			kinds = append(kinds, kindUnit)
+		}
+		for ki, k := range kinds {
+			base := nearBase(k, n, 3*n+5*ki-7)
+			for mode := 0; mode < 6; mode++ {
+				pick, start, rot := 7*n+3*mode+ki, 11*n+mode, 5*n+mode+2*ki
+				emit(k, Case{Init: [][]int{base}, Ops: nearBattery(mode, pick, start, rot, nearReps(thorough, n))})
+			}
+		}
+	}
+}
+
+// ---------------------------------------------------------------------------
 // rapid history leg
 
 var histKinds = []string{
@@ -335,6 +458,9 @@ func genElem(t *rapid.T) string {
 	if !rapid.Bool().Draw(t, "otherElem") {
 		return ""
 	}
+	if vk.Rare(t, "unitElem", 12) {
+		return kindUnit
+	}
 	return rapid.SampledFrom(elemKinds).Draw(t, "elem")
 }
 
@@ -372,8 +498,71 @@ func genHist(t *rapid.T) Case {
 	if isByteKind(c.Elem) {
 		genBytes(t, &c)
 	}
+	if c.Elem == kindUnit {
+		// one value in all: every member and item becomes 0
+		for _, in := range c.Init {
+			clear(in)
+		}
+		for _, op := range c.Ops {
+			clear(op.A)
+		}
+	}
+	if vk.Rare(t, "nearShape", 32) {
+		genNear(t, &c)
+	}
 	return c
 }
+
+// genNear splices a group into the history: var x becomes a set of n members
+// (any size up to nearSmall, or one of nearLarge if the kind can hold it), var
+// y a near copy of it, then a few binary operations on the two follow, each
+// evaluated repeatedly.
+func genNear(t *rapid.T, c *Case) {
+	n := rapid.IntRange(0, nearSmall).Draw(t, "nearN")
+	if rapid.IntRange(0, 7).Draw(t, "nearBig") == 0 {
+		if big := rapid.SampledFrom(nearLarge).Draw(t, "nearBigN"); big <= kindCap(c.Elem) {
+			n = big
+		}
+	}
+	n = min(n, kindCap(c.Elem))
+	x := rapid.IntRange(0, 2).Draw(t, "nearX")
+	y := (x + rapid.IntRange(1, 2).Draw(t, "nearDy")) % 3
+	mode := rapid.SampledFrom([]int{0, 1, 1, 1, 2, 3, 4, 5}).Draw(t, "nearMode")
+	pick := rapid.IntRange(0, max(n-1, 0)).Draw(t, "nearPick")
+	start := rapid.IntRange(domLo, domHi).Draw(t, "nearStart")
+	grp := []Op{
+		{K: "new", D: x, A: nearBase(c.Elem, n, rapid.IntRange(domLo, domHi).Draw(t, "nearOff"))},
+		{K: "near", D: y, S: []int{x}, B: mode, A: []int{pick, start}},
+	}
+	maxRep := nearReps(false, n)
+	for k := rapid.IntRange(1, 6).Draw(t, "nearOps"); k > 0; k-- {
+		a, b := x, y
+		if rapid.Bool().Draw(t, "nearSwap") {
+			a, b = y, x
+		}
+		op := Op{K: rapid.SampledFrom(nearKinds).Draw(t, "nearK"), D: a, S: []int{b}}
+		op.R = rapid.SampledFrom([]int{0, 3, maxRep / 4, maxRep, maxRep}).Draw(t, "nearRep")
+		switch op.K {
+		case "intersect":
+			op.D, op.S = 3, []int{a, b}
+			if rapid.IntRange(0, 3).Draw(t, "nearThird") == 0 {
+				op.S = append(op.S, genVar(t, "nearS3"))
+			}
+			op.R /= 4
+		case "hasall", "hasany":
+			op.B = rapid.IntRange(0, n).Draw(t, "nearRot")
+		case "add", "remove", "addall", "removeall":
+			// on a copy, so that the pair stays what it is for the operations after it
+			grp = append(grp, Op{K: "near", D: 3, S: []int{a}})
+			op.D, op.R = 3, op.R/4
+		}
+		grp = append(grp, op)
+	}
+	i := rapid.IntRange(0, len(c.Ops)).Draw(t, "nearPos")
+	c.Ops = append(c.Ops[:i:i], append(grp, c.Ops[i:]...)...)
+}
+
+var nearKinds = []string{"equals", "equals", "issubset", "issubset", "intersects", "hasall", "hasall", "hasany", "intersect", "intersect", "add", "remove", "addall", "removeall"}
 
 // genBytes adds what only the 1-byte kinds can have: sets that hold most or
 // all values of their type, and operand pairs that partition the type.
